@@ -14,10 +14,12 @@
 from __future__ import annotations
 
 import ast
+import itertools
 
 from ..cfg import CFG, ENTRY, EXIT, header_parts
 from ..effects import FS_DELETE, FS_WRITE, USER_CALL, _open_mode
-from ..loader import AnalysisError, FuncInfo, dotted, norm, walk_no_nested
+from ..flow import Defs, Scope, arg, bool_atoms, bool_eval, cond, guards, iterations, nnf
+from ..loader import FuncInfo, dotted, norm, walk_no_nested
 from ..report import Ctx
 from ..selftest import Mutant
 
@@ -45,10 +47,19 @@ def _parents(root: ast.AST) -> dict[int, ast.AST]:
     return {id(c): p for p in ast.walk(root) for c in ast.iter_child_nodes(p)}
 
 
-def check(ctx: Ctx) -> None:  # noqa: C901, PLR0912, PLR0915
-    P, cg, eff = ctx.prog, ctx.cg, ctx.effects
+def _helper_value(ctx: Ctx, fn: FuncInfo, e: ast.AST) -> ast.AST:
+    """`e`, or the expression a one-level private helper returns when `e` is a call to it."""
+    if isinstance(e, ast.Call):
+        for callee in ctx.cg.resolve_callable(fn, e.func):
+            if callee.module.name == fn.module.name:
+                rets = [r.value for r in walk_no_nested(callee.node) if isinstance(r, ast.Return) and r.value is not None]
+                if len(rets) == 1:
+                    return Defs(callee).resolve(rets[0])
+    return e
 
-    # ------------------------------------------------------------ 1 atomic
+
+def rule_atomic(ctx: Ctx) -> None:  # noqa: C901, PLR0915
+    P, cg = ctx.prog, ctx.cg
     n_open = 0
     for m in RUN_FOLDER_MODULES:
         for fn in P.functions_in(m):
@@ -61,7 +72,6 @@ def check(ctx: Ctx) -> None:  # noqa: C901, PLR0912, PLR0915
                 ctx.add("1-atomic", fn, c, ok, "the publishing primitive opens its temporary file" if ok else
                         f"`{norm(c)[:70]}` writes a run-folder file in place: a death mid-write leaves a torn file under the final name, which readers take for a completed result", key=f"open-for-write in {fn.name}")
             for c in [c for c in walk_no_nested(fn.node) if isinstance(c, ast.Call) and dotted(c.func) in ("json.dump", "cloudpickle.dump", "pickle.dump")]:
-                # the handle must come from `with atomic_write(...) as f`
                 par = _parents(fn.node)
                 x: ast.AST = c
                 via = False
@@ -77,50 +87,78 @@ def check(ctx: Ctx) -> None:  # noqa: C901, PLR0912, PLR0915
     aw = P.func(ATOMIC)
     ok = any("contextmanager" in d for d in aw.decorators)
     ctx.add("1-atomic", aw, aw.node, ok, "atomic_write is a context manager" if ok else "atomic_write is no longer a context manager", key="ctxmgr")
-    tmp_defs = [s for s in walk_no_nested(aw.node) if isinstance(s, ast.Assign) and isinstance(s.targets[0], ast.Name) and ("with_name" in norm(s.value) or "with_suffix" in norm(s.value))]
-    if not tmp_defs:
-        raise AnalysisError("atomic_write: temporary path definition not found")
-    tmp = tmp_defs[0].targets[0].id  # type: ignore[union-attr]
     dest = aw.param_names()[0]
-    tmp_src = norm(tmp_defs[0].value)
-    consts = [c.value for c in ast.walk(tmp_defs[0].value) if isinstance(c, ast.Constant) and isinstance(c.value, str)]
-    suffix_ok = f"{dest}.with_name(" in tmp_src and any(c.endswith(".tmp") for c in consts) and not any(c.endswith(p) for c in consts for p in READER_NAME_PATTERNS)
-    ctx.add("1-atomic", aw, tmp_defs[0], suffix_ok, "temporary = sibling of the destination with a name no reader pattern matches (same directory: rename stays atomic)" if suffix_ok else
-            "the temporary name is not a sibling `*.tmp` of the destination (readers may match it, or the rename crosses directories)", key="tmp-name")
-    uniq = "os.getpid()" in tmp_src
-    ctx.add("1-atomic", aw, tmp_defs[0], uniq, "temporary name is unique per process" if uniq else "concurrent writers share one temporary name", key="tmp-unique")
-    opens = [w for w in walk_no_nested(aw.node) if isinstance(w, ast.With) and any(isinstance(i.context_expr, ast.Call) and norm(i.context_expr.func) == f"{tmp}.open" for i in w.items)]
+    opens = [w for w in walk_no_nested(aw.node) if isinstance(w, ast.With) and any(isinstance(i.context_expr, ast.Call) and isinstance(i.context_expr.func, ast.Attribute) and i.context_expr.func.attr == "open" for i in w.items)
+             and any(isinstance(y, ast.Yield) for y in ast.walk(w))]
+    if not opens:
+        ctx.add("1-atomic", aw, aw.node, None, "UNDECIDED: `with <tmp>.open(...)` around the yield not found", key="one-replace")
+        return
+    tmp = norm(next(i.context_expr.func.value for i in opens[0].items if isinstance(i.context_expr, ast.Call) and isinstance(i.context_expr.func, ast.Attribute) and i.context_expr.func.attr == "open"))
+    if tmp == dest:
+        ctx.add("1-atomic", aw, opens[0], False, "atomic_write opens the destination itself: a death mid-write leaves a torn file under the final name", key="tmp-name")
+        return
+    d = Defs(aw)
+    tdef = d.unique(tmp) if tmp.isidentifier() else None
+    tval = _helper_value(ctx, aw, tdef) if tdef is not None else None
+    tmp_src = norm(tval) if tval is not None else ""
+    consts = [c.value for c in ast.walk(tval) if isinstance(c, ast.Constant) and isinstance(c.value, str)] if tval is not None else []
+    sibling = ".with_name(" in tmp_src or ".with_suffix(" in tmp_src or ".parent /" in tmp_src
+    reader = [c for c in consts if any(c.endswith(p_) for p_ in READER_NAME_PATTERNS)]
+    ends_plain = tval is not None and isinstance(tval, ast.Call) and tval.args and isinstance(tval.args[0], ast.JoinedStr) and tval.args[0].values and isinstance(tval.args[0].values[-1], ast.FormattedValue)
+    ctx.tri("1-atomic", aw, tdef if tdef is not None else aw.node, sibling and any(c.endswith(".tmp") for c in consts) and not reader, bool(reader) or bool(ends_plain),
+            "temporary = sibling of the destination with a name no reader pattern matches (same directory: rename stays atomic)",
+            f"the temporary name `{tmp_src[:70]}` ends like the files readers look for: a half-written temporary is taken for a completed result", f"temporary name `{tmp_src[:60]}` not classified", key="tmp-name")
+    ctx.tri("1-atomic", aw, tdef if tdef is not None else aw.node, "getpid" in tmp_src or "uuid" in tmp_src or "mkstemp" in tmp_src, False, "temporary name is unique per process", "", "uniqueness of the temporary name not recognised", key="tmp-unique")
     repl = [c for c in walk_no_nested(aw.node) if isinstance(c, ast.Call) and ((isinstance(c.func, ast.Attribute) and c.func.attr == "replace" and norm(c.func.value) == tmp and len(c.args) == 1 and norm(c.args[0]) == dest)
-                                                                                 or (dotted(c.func) in ("os.replace",) and [norm(a) for a in c.args] == [tmp, dest]))]
-    ok = len(opens) == 1 and len(repl) == 1
-    ctx.add("1-atomic", aw, repl[0] if repl else aw.node, ok, "exactly one open of the temporary and one replace(tmp -> destination)" if ok else "atomic_write no longer publishes with a single replace of the temporary onto the destination", key="one-replace")
-    if ok:
+                                                                                 or (dotted(c.func) in ("os.replace",) and [norm(a_) for a_ in c.args] == [tmp, dest]))]
+    renames = [c for c in ast.walk(aw.node) if isinstance(c, ast.Call) and ((isinstance(c.func, ast.Attribute) and c.func.attr == "rename") or dotted(c.func) in ("os.rename", "shutil.move", "shutil.copy", "shutil.copyfile"))]
+    ctx.tri("1-atomic", aw, (renames or repl or [aw.node])[0], len(repl) == 1 and not renames, bool(renames), "published with one atomic replace(tmp -> destination)",
+            f"`{norm(renames[0])[:50] if renames else ''}` is not an atomic replace of the destination", "publication step not recognised", key="one-replace")
+    if len(repl) == 1:
+        cfg = ctx.cfg(aw)
         inside = any(x is repl[0] for x in ast.walk(opens[0]))
-        after = repl[0].lineno > (opens[0].end_lineno or opens[0].lineno)
-        same_block = False
-        par = _parents(aw.node)
-        rp_stmt: ast.AST = repl[0]
-        while id(rp_stmt) in par and not isinstance(rp_stmt, ast.stmt):
-            rp_stmt = par[id(rp_stmt)]
-        blk = par.get(id(opens[0]))
-        same_block = blk is par.get(id(rp_stmt))
-        ok2 = (not inside) and after and same_block
-        ctx.add("1-atomic", aw, repl[0], ok2, "the replace happens after the `with` that closes (flushes) the file, on the same path" if ok2 else
-                "the destination is published while the temporary file is still open: a kill after the rename leaves an unflushed (empty/torn) file under the final name", key="replace-after-close")
-        ys = [y for y in ast.walk(opens[0]) if isinstance(y, ast.Yield)]
-        ctx.add("1-atomic", aw, opens[0], bool(ys), "the caller writes inside the `with` on the temporary" if ys else "the yield is not inside the `with tmp.open`", key="yield-inside")
+        rn, wn = cfg.node_containing(repl[0]), cfg.node(opens[0])
+        after = rn is not None and cfg.dominates(wn, rn)
+        ctx.tri("1-atomic", aw, repl[0], (not inside) and after, inside, "the replace happens after the `with` that closes (flushes) the file",
+                "the destination is published while the temporary file is still open: a kill after the rename leaves an unflushed (empty/torn) file under the final name", "ordering of close and replace not recognised", key="replace-after-close")
     dest_del = [c for c in ast.walk(aw.node) if isinstance(c, ast.Call) and ((isinstance(c.func, ast.Attribute) and c.func.attr in ("unlink", "rmdir", "rename") and norm(c.func.value) == dest)
                                                                             or (dotted(c.func) in ("os.remove", "os.unlink", "os.rename") and c.args and norm(c.args[0]) == dest))]
-    renames = [c for c in ast.walk(aw.node) if isinstance(c, ast.Call) and isinstance(c.func, ast.Attribute) and c.func.attr == "rename"]
-    ok = not dest_del and not renames
-    ctx.add("1-atomic", aw, (dest_del or renames or [aw.node])[0], ok, "the destination is never removed or renamed away" if ok else
+    ctx.add("1-atomic", aw, (dest_del or [aw.node])[0], not dest_del, "the destination is never removed or renamed away" if not dest_del else
             "the destination is unlinked/renamed before the new file is in place: a crash in between loses a complete previous value", key="dest-not-removed")
-    # all users
     users = {s.caller.qualname for s in cg.call_sites_of(ATOMIC)}
     ok = {"pipefunc._utils.dump", "pipefunc.map._run_info.RunInfo.dump"} <= users
-    ctx.add("1-atomic", ATOMIC, aw.loc, ok, f"used by {sorted(u.rsplit('.', 2)[-2] + '.' + u.rsplit('.', 1)[-1] for u in users)}" if ok else "dump / RunInfo.dump no longer publish through atomic_write", key="users")
+    ctx.tri("1-atomic", ATOMIC, aw.loc, ok, False, f"used by {sorted(u.rsplit('.', 2)[-2] + '.' + u.rsplit('.', 1)[-1] for u in users)}", "", f"atomic_write is used by {sorted(users)}", key="users")
 
-    # ------------------------------------------------------------ 2 guarded
+
+def _existence_guarded(ctx: Ctx, fn: FuncInfo, node: ast.AST, target: str) -> bool:
+    """`node` in `fn` only executes when `<target>.is_file()` / `.exists()` held (enclosing if / ifexp / early exit)."""
+    d = Defs(fn)
+    par = _parents(fn.node)
+    want = {f"{target}.is_file()", f"{target}.exists()"}
+    rt = norm(d.resolve(ast.parse(target, mode="eval").body)) if target else target
+    want |= {f"{rt}.is_file()", f"{rt}.exists()"}
+    x = node
+    while id(x) in par:
+        child, x = x, par[id(x)]
+        if isinstance(x, ast.IfExp):
+            t, pol = cond(x.test)
+            if t in want and ((child is x.body and pol) or (child is x.orelse and not pol)):
+                return True
+    cfg = ctx.cfg(fn)
+    cn = cfg.node_containing(node)
+    if cn is None:
+        return False
+    for g_ in (guards(cfg, d, cn), guards(cfg, Defs(ast.Module(body=[], type_ignores=[])), cn)):
+        if any(t in want and pol for t, pol in g_):
+            return True
+        for t, pol in g_:  # conjunctions: `a and p.is_file()`
+            if pol and any(w in t.split(" and ") or f"({w})" in t for w in want):
+                return True
+    return False
+
+
+def rule_guarded(ctx: Ctx) -> None:  # noqa: C901
+    P, cg, eff = ctx.prog, ctx.cg, ctx.effects
     COVERED = {  # loads that are covered by a protocol instead of a local test: reason
         "pipefunc.map._run_info.RunInfo.load": "commit marker: run_info.json is tested by the caller and written after inputs/defaults (rule below)",
         "pipefunc.map._storage_array._file.FileArray.get_from_index": "callers only pass indices whose file the mask / has_index reported present (rule below)",
@@ -130,119 +168,193 @@ def check(ctx: Ctx) -> None:  # noqa: C901, PLR0912, PLR0915
         if m == "pipefunc._utils":
             continue
         for fn in P.functions_in(m):
-            par = _parents(fn.node)
             for c in [c for c in walk_no_nested(fn.node) if isinstance(c, ast.Call) and dotted(c.func) in ("load", "_read", "cloudpickle.load") and c.args]:
                 n_load += 1
                 if fn.qualname in COVERED:
-                    ctx.add("2-guarded", fn, c, True, f"covered: {COVERED[fn.qualname]}", key=f"load {norm(c.args[0])[:40]} (protocol)")
+                    ctx.add("2-guarded", fn, c, True, f"covered: {COVERED[fn.qualname]}", key=f"load in {fn.name} (protocol)")
                     continue
                 target = norm(c.args[0])
-                guarded = False
-                # (a) an enclosing if / conditional expression testing the same path
-                x = c
-                while id(x) in par and not guarded:
-                    child, x = x, par[id(x)]
-                    if isinstance(x, (ast.If, ast.IfExp)):
-                        t = norm(x.test)
-                        in_body = (child in x.body) if isinstance(x, ast.If) else (child is x.body)
-                        if in_body and t in (f"{target}.is_file()", f"{target}.exists()"):
-                            guarded = True
-                # (b) an earlier `if not <path>.is_file(): return`
+                guarded = _existence_guarded(ctx, fn, c, target)
+                tested_other = None
                 if not guarded:
-                    cfg = ctx.cfg(fn)
-                    gn = cfg.nodes(lambda s: isinstance(s, ast.If) and norm(s.test) in (f"not {target}.is_file()", f"not {target}.exists()") and isinstance(s.body[-1], (ast.Return, ast.Raise, ast.Continue)))
-                    cn = cfg.node_containing(c)
-                    guarded = bool(gn) and cn is not None and any(cfg.dominates(g, cn) for g in gn)
-                ctx.add("2-guarded", fn, c, guarded, f"`{target}` is loaded only after testing that very path" if guarded else
-                        f"`{norm(c)[:60]}` is not guarded by an existence test of `{target}`: an interrupted run leaves the folder without that file and the resume raises", key=f"load {target[:50]}")
+                    cn = ctx.cfg(fn).node_containing(c)
+                    gs = guards(ctx.cfg(fn), Defs(fn), cn) if cn is not None else []
+                    tested_other = next((t for t, pol in gs if any(w in t for w in (".is_file()", ".exists()", ".is_dir()"))), None)
+                # a private helper may be called only under the test
+                if not guarded and fn.name.startswith("_"):
+                    sites = cg.call_sites_of(fn.qualname)
+                    if sites and all(_existence_guarded(ctx, s_.caller, s_.node, norm(s_.node.args[0]) if s_.node.args else "") for s_ in sites if s_.kind == "call"):
+                        guarded = True
+                ctx.tri("2-guarded", fn, c, guarded, not guarded and (tested_other is not None or not fn.name.startswith("_") or True), f"`{target}` is loaded only after testing that very path",
+                        f"`{norm(c)[:60]}` is not guarded by an existence test of `{target}`" + (f" (the test is `{tested_other}`)" if tested_other else "") + ": an interrupted run leaves the folder without that file and the resume raises",
+                        key=f"load in {fn.name}")
     ctx.floor("2-guarded", n_load, 6)
     wr = P.func("pipefunc.map._run_info.RunInfo._write")
     cfg = ctx.cfg(wr)
     marker = cfg.nodes(lambda s: isinstance(s, ast.Expr) and isinstance(s.value, ast.Call) and norm(s.value.func) == "self.dump")
     others = [n for n in cfg.nodes() if n not in marker and any(isinstance(c, ast.Call) and any(eff.has(cal.qualname, FS_WRITE) for cal in cg.resolve_callable(wr, c.func)) for part in header_parts(cfg.stmt[n]) for c in ast.walk(part))]
-    ok = len(marker) == 1 and bool(others) and not any(o in cfg.reachable_from(marker[0]) for o in others)
-    ctx.add("2-guarded", wr, cfg.stmt[marker[0]] if marker else wr.node, ok, "run_info.json (the marker that makes a resume read inputs/defaults) is published last" if ok else
-            "run_info.json is published before the inputs/defaults it points to: a death in between makes every resume fail to load the previous run info", key="marker-last")
+    if len(marker) == 1 and others:
+        late = [o for o in others if o in cfg.reachable_from(marker[0])]
+        ctx.add("2-guarded", wr, cfg.stmt[late[0]] if late else cfg.stmt[marker[0]], not late, "run_info.json (the marker that makes a resume read inputs/defaults) is published last" if not late else
+                f"`{norm(cfg.stmt[late[0]])[:60]}` is written after run_info.json: a death in between makes every resume fail to load the previous run info", key="marker-last")
+    else:
+        ctx.tri("2-guarded", wr, wr.node, False, not marker, "", "RunInfo._write never publishes run_info.json: a resume finds no marker (or a stale one)", "marker / other writes not recognised", key="marker-last")
     cmpf = P.func("pipefunc.map._run_info._compare_to_previous_run_info")
-    first = [s for s in cmpf.node.body if not (isinstance(s, ast.Expr) and isinstance(s.value, ast.Constant))][0]
-    ok = isinstance(first, ast.If) and norm(first.test) == "not RunInfo.path(run_folder).is_file()" and isinstance(first.body[-1], ast.Return)
-    ctx.add("2-guarded", cmpf, first, ok, "no run_info.json -> nothing to compare (fresh or never-started folder)" if ok else "the previous-run comparison does not start with the run_info.json existence test", key="marker-tested")
-    for s in cg.call_sites_of("pipefunc.map._storage_array._file.FileArray.get_from_index") + cg.call_sites_of("pipefunc.map._storage_array._base.StorageBase.get_from_index"):
-        if s.caller.module.name not in ("pipefunc.map._run", "pipefunc.map.adaptive"):
+    loads = [(f, c) for f, c in Scope(ctx, cmpf).calls("load") if "RunInfo" in norm(c.func)]
+    if loads:
+        f_, c_ = loads[0]
+        tgt = "RunInfo.path(" + (norm(c_.args[0]) if c_.args else "") + ")"
+        g1 = _existence_guarded(ctx, f_, c_, tgt)
+        if not g1 and f_ is not cmpf:
+            sites = [s_ for s_ in cg.call_sites_of(f_.qualname) if s_.caller is cmpf]
+            g1 = bool(sites) and all(_existence_guarded(ctx, cmpf, s_.node, "RunInfo.path(" + (norm(s_.node.args[0]) if s_.node.args else "") + ")") for s_ in sites)
+        ctx.tri("2-guarded", cmpf, c_, g1, False, "the previous run info is loaded only when run_info.json exists (fresh or never-started folders are skipped)", "", "existence test of run_info.json before RunInfo.load not recognised", key="marker-tested")
+    for s_ in cg.call_sites_of("pipefunc.map._storage_array._file.FileArray.get_from_index") + cg.call_sites_of("pipefunc.map._storage_array._base.StorageBase.get_from_index"):
+        if s_.caller.module.name not in ("pipefunc.map._run", "pipefunc.map.adaptive"):
             continue
-        src = ast.unparse(s.caller.node)
-        ok = ("args.existing" in src) or ("has_index(index)" in src)
-        ctx.add("2-guarded", s.caller, s.node, ok, "get_from_index only for indices known to exist" if ok else "get_from_index is called for an index that was not checked to exist", key="get-from-index guarded")
+        src = ast.unparse(s_.caller.node)
+        ctx.tri("2-guarded", s_.caller, s_.node, ("existing" in src) or ("has_index(" in src), False, "get_from_index only for indices known to exist", "", "the index passed to get_from_index was not traced to an existence check", key="get-from-index guarded")
 
-    # ------------------------------------------------------------ 3 missing
+
+def _roles_of_returned_lists(ei: FuncInfo) -> list[str]:
+    """Roles ('missing' / 'existing' / '?') of the elements of the tuple returned by _existing_and_missing_indices."""
+    rets = [r for r in walk_no_nested(ei.node) if isinstance(r, ast.Return) and isinstance(r.value, ast.Tuple)]
+    if not rets:
+        return []
+    roles = []
+    for e in rets[-1].value.elts:
+        role = "?"
+        if isinstance(e, ast.Name):
+            for c in [c for c in ast.walk(ei.node) if isinstance(c, ast.Call) and isinstance(c.func, ast.Attribute) and c.func.attr == "append" and norm(c.func.value) == e.id]:
+                conds = _conds_of(c, ei.node)
+                if any(t.startswith("any(") for t in conds):
+                    role = "missing"
+                elif any(t.startswith("not any(") for t in conds):
+                    role = "existing"
+                elif any(t.startswith("all(") for t in conds):
+                    role = "all-missing"
+        roles.append(role)
+    return roles
+
+
+def rule_missing(ctx: Ctx) -> None:  # noqa: C901, PLR0915
+    P = ctx.prog
     sf = P.func("pipefunc.map._run._submit_func")
-    pm = [c for c in ast.walk(sf.node) if isinstance(c, ast.Call) and dotted(c.func) == "_maybe_parallel_map"]
-    ok = bool(pm) and len(pm[0].args) >= 3 and norm(pm[0].args[2]) == "args.missing" and norm(pm[0].args[1]) == "args.process_index"
-    ctx.add("3-missing", sf, pm[0] if pm else sf.node, ok, "only args.missing is submitted" if ok else "the indices submitted on (re)run are not exactly args.missing", key="submit-missing")
+    pm = [c for _f, c in Scope(ctx, sf, depth=1).calls("_maybe_parallel_map") if _f is sf]
+    if pm:
+        a2 = arg(pm[0], 2, "indices")
+        t = norm(Defs(sf).resolve(a2)) if a2 is not None else "?"
+        ctx.tri("3-missing", sf, pm[0], t.endswith(".missing") or t == "missing", "existing" in t or t.startswith("range("), "only the missing indices are submitted",
+                f"`{t[:60]}` is submitted on (re)run: elements that are already stored are computed again (and overwritten)", f"submitted indices `{t[:40]}`", key="submit-missing")
     ps = P.func("pipefunc.map._run._prepare_submit_map_spec")
-    em = [s for s in walk_no_nested(ps.node) if isinstance(s, ast.Assign) and "_existing_and_missing_indices" in norm(s.value)]
-    ret = [r for r in walk_no_nested(ps.node) if isinstance(r, ast.Return)][-1]
-    ok = bool(em) and norm(em[0].targets[0]) == "(existing, missing)" and norm(em[0].value).startswith("_existing_and_missing_indices(arrays, fixed_mask)") \
-        and norm(ret.value).startswith("_MapSpecArgs(process_index, existing, missing,")
-    ctx.add("3-missing", ps, em[0] if em else ps.node, ok, "existing/missing come from _existing_and_missing_indices(all arrays, selection)" if ok else "existing/missing are no longer taken (in that order) from _existing_and_missing_indices(arrays, fixed_mask)", key="existing-missing")
-    arr = [s for s in walk_no_nested(ps.node) if isinstance(s, (ast.Assign, ast.AnnAssign)) and norm(s.targets[0] if isinstance(s, ast.Assign) else s.target) == "arrays"]
-    ok = bool(arr) and "for name in at_least_tuple(func.output_name)" in norm(arr[0].value)
-    ctx.add("3-missing", ps, arr[0] if arr else ps.node, ok, "arrays = the storage of EVERY output of the function" if ok else "not every output's storage takes part in the existing/missing split", key="all-arrays")
     ei = P.func("pipefunc.map._run._existing_and_missing_indices")
-    src = norm(ei.node)
-    ok = "masks = (arr.mask_linear() for arr in arrays)" in src and "zip(*masks, fixed_mask)" in src
-    ctx.add("3-missing", ei, ei.node, ok, "the masks of all arrays are zipped" if ok else "only some of the output arrays are consulted: an element whose later output was never written counts as stored", key="all-masks")
-    ifs = [s for s in ast.walk(ei.node) if isinstance(s, ast.If) and "mask_values" in norm(s.test)]
-    ok = bool(ifs) and norm(ifs[0].test) == "any(mask_values)" and "missing_indices.append(i)" in norm(ifs[0].body[0]) and "existing_indices.append(i)" in norm(ifs[0].orelse[0])
-    ctx.add("3-missing", ei, ifs[0] if ifs else ei.node, ok, "an element is missing if ANY of its outputs is missing" if ok else "the missing/existing classification changed (must be: any output missing -> recompute)", key="any-missing")
-    ok = norm(ei.node.body[-1]) == "return (existing_indices, missing_indices)"
-    ctx.add("3-missing", ei, ei.node.body[-1], ok, "returns (existing, missing)" if ok else "return order of (existing, missing) changed", key="return-order")
+    roles = _roles_of_returned_lists(ei)
+    em = [s_ for s_ in walk_no_nested(ps.node) if isinstance(s_, ast.Assign) and isinstance(s_.value, ast.Call) and dotted(s_.value.func) == "_existing_and_missing_indices" and isinstance(s_.targets[0], ast.Tuple)]
+    msa = P.classes.get("pipefunc.map._run._MapSpecArgs")
+    ctor = [c for c in ast.walk(ps.node) if isinstance(c, ast.Call) and dotted(c.func) == "_MapSpecArgs"]
+    if em and roles and msa is not None and ctor and len(roles) == len(em[0].targets[0].elts):
+        names = [norm(e) for e in em[0].targets[0].elts]
+        role_of = dict(zip(names, roles))
+        fields = list(msa.fields)
+        given = {fields[i]: norm(a_) for i, a_ in enumerate(ctor[0].args) if i < len(fields)} | {k.arg: norm(k.value) for k in ctor[0].keywords if k.arg}
+        wrong = [(f_, v) for f_, v in given.items() if f_ in ("existing", "missing") and role_of.get(v, f_) not in (f_, "?")]
+        traced = all(given.get(f_) in role_of and role_of[given[f_]] != "?" for f_ in ("existing", "missing"))
+        ctx.tri("3-missing", ps, em[0], traced and not wrong, bool(wrong), "the list of elements with a missing output becomes `missing`, the rest `existing`",
+                f"{wrong}: the list built for the {role_of.get(wrong[0][1]) if wrong else ''} elements is used as `{wrong[0][0] if wrong else ''}` - stored elements are recomputed and missing ones are read", "roles of the two lists not traced", key="existing-missing")
+    else:
+        ctx.add("3-missing", ps, ps.node, None, "UNDECIDED: chain _existing_and_missing_indices -> _MapSpecArgs not recognised", key="existing-missing")
+    allm = [r for r in roles if r == "all-missing"]
+    ctx.tri("3-missing", ei, ei.node, "missing" in roles and not allm, bool(allm), "an element is missing if ANY of its outputs is missing",
+            "an element counts as missing only if ALL of its outputs are missing: an element whose later output was never written is taken as stored", "classification not recognised", key="any-missing")
+    d = Defs(ps)
+    arr_its = [it for it in iterations(ps.node) if "output_name" in norm(d.resolve(it["iter"])) and "store[" in norm(getattr(it["node"], "elt", it["node"]))]
+    part = [it for it in arr_its if isinstance(it["iter"], ast.Subscript)]
+    ctx.tri("3-missing", ps, (part or arr_its or [{"node": ps.node}])[0]["node"], bool(arr_its) and not part, bool(part), "arrays = the storage of EVERY output of the function", "only part of the outputs' storages take part in the existing/missing split", "construction of `arrays` not recognised", key="all-arrays")
+    arrays_p = ei.param_names()[0]
+    mask_its = [it for it in iterations(ei.node) if "mask_linear(" in norm(getattr(it["node"], "elt", it["node"])) or ("mask_linear(" in norm(it["node"]) and it["kind"] == "loop")]
+    whole = [it for it in mask_its if norm(it["iter"]) == arrays_p]
+    partial = [it for it in mask_its if isinstance(it["iter"], ast.Subscript)] + [x for x in ast.walk(ei.node) if isinstance(x, ast.Call) and isinstance(x.func, ast.Attribute) and x.func.attr == "mask_linear" and isinstance(x.func.value, ast.Subscript)]
+    ctx.tri("3-missing", ei, ei.node, bool(whole) and not partial, bool(partial), "the masks of all arrays are consulted",
+            "only some of the output arrays are consulted: an element whose later output was never written counts as stored", "consultation of the masks not recognised", key="all-masks")
     fm = P.func("pipefunc.map._storage_array._file.FileArray.mask_linear")
-    ok = "self.filename_template.format(i) not in existing_files for i in range(self.size)" in norm(fm.node) and "os.listdir(self.folder)" in norm(fm.node)
-    ctx.add("3-missing", fm, fm.node, ok, "FileArray: missing = file name absent from the folder listing" if ok else "FileArray.mask_linear polarity/pattern changed", key="file-mask")
-    ot = P.func("pipefunc.map._run._output_from_mapspec_task")
-    ok = "for index in args.existing" in norm(ot.node) and "array.get_from_index(index) for array in args.arrays" in norm(ot.node) and "zip(args.missing, outputs_list)" in norm(ot.node)
-    ctx.add("3-missing", ot, ot.node, ok, "existing elements are read back, computed ones are paired with args.missing" if ok else "existing elements are no longer read back from storage", key="read-back")
-    es = P.func("pipefunc.map._run._execute_single")
-    cfg = ctx.cfg(es)
-    g = cfg.nodes(lambda s: isinstance(s, ast.If) and norm(s.test) == "exists" and isinstance(s.body[-1], ast.Return))
-    later = [n for n in cfg.nodes() if isinstance(cfg.stmt[n], ast.Return) and "_get_or_set_cache" in norm(cfg.stmt[n])]
-    ld = [s for s in walk_no_nested(es.node) if isinstance(s, ast.Assign) and "_load_from_store(func.output_name, store" in norm(s.value)]
-    ok = bool(g) and bool(later) and bool(ld) and all(cfg.dominates(g[0], n) for n in later) and norm(cfg.stmt[g[0]].body[-1].value) == "output"
-    ctx.add("3-missing", es, cfg.stmt[g[0]] if g else es.node, ok, "a stored single output is returned before the function can run" if ok else "_execute_single no longer returns the stored output first", key="single-stored-first")
-    lfs = P.func("pipefunc.map._run._load_from_store")
-    ok = norm(lfs.node).count("all_exist = False") == 2 and "for name in at_least_tuple(output_name)" in norm(lfs.node) and "return _StoredValue(outputs, all_exist)" in norm(lfs.node)
-    ctx.add("3-missing", lfs, lfs.node, ok, "a tuple output exists only if every part exists" if ok else "_load_from_store no longer requires every part of a tuple output", key="tuple-all-exist")
-    for q, test in (("pipefunc.map.adaptive._execute_iteration_in_map_spec", "all((arr.has_index(index) for arr in arrays))"), ("pipefunc.map.adaptive._execute_iteration_in_single", "exists")):
+    cmps = [c for c in ast.walk(fm.node) if isinstance(c, ast.Compare) and len(c.ops) == 1 and isinstance(c.ops[0], (ast.In, ast.NotIn)) and "format(" in norm(c.left)]
+    par = _parents(fm.node)
+    pol = []
+    for c in cmps:
+        neg = isinstance(c.ops[0], ast.NotIn)
+        y: ast.AST = c
+        while id(y) in par:
+            y = par[id(y)]
+            if isinstance(y, ast.UnaryOp) and isinstance(y.op, ast.Not):
+                neg = not neg
+        pol.append(neg)
+    ctx.tri("3-missing", fm, cmps[0] if cmps else fm.node, bool(pol) and all(pol), bool(pol) and not any(pol), "FileArray: missing = file name absent from the folder listing",
+            "FileArray.mask_linear marks the PRESENT files as missing: stored elements are recomputed and missing ones are read", "polarity of the file mask not recognised", key="file-mask")
+    for q, runs_calls in (("pipefunc.map._run._execute_single", ("_get_or_set_cache", "_run_iteration")), ("pipefunc.map.adaptive._execute_iteration_in_map_spec", ("_run_iteration_and_process",)),
+                          ("pipefunc.map.adaptive._execute_iteration_in_single", ("_submit_func",))):
         f = P.func(q)
         cfg = ctx.cfg(f)
-        g = cfg.nodes(lambda s, test=test: isinstance(s, ast.If) and norm(s.test) == test)
-        runs = [n for n in cfg.nodes() if any(isinstance(c, ast.Call) and dotted(c.func) in ("_run_iteration_and_process", "_submit_func") for part in header_parts(cfg.stmt[n]) for c in ast.walk(part))]
-        ok = bool(g) and bool(runs) and all(cfg.dominates(g[0], r) for r in runs) and all(isinstance(x, ast.Return) for x in [cfg.stmt[g[0]].body[-1]] if not isinstance(x, ast.If)) and not any(r in cfg.reachable_from(cfg.node(cfg.stmt[g[0]].body[0])) for r in runs)
-        ctx.add("3-missing", f, cfg.stmt[g[0]] if g else f.node, ok, "learner: a stored element is returned without running the function" if ok else "the learner entry point recomputes stored elements", key="learner-stored-first")
+        fd_ = Defs(f)
+        runs = cfg.nodes(lambda s, rc=runs_calls: not isinstance(s, (ast.If, ast.For)) and any(isinstance(c, ast.Call) and dotted(c.func) in rc for c in ast.walk(s)))
+        asks = any(w in norm(f.node) for w in ("_load_from_store(", "has_index(", ".exists()", ".is_file()"))
+        if not runs:
+            ctx.add("3-missing", f, f.node, None, "UNDECIDED: the call that runs the function was not found", key=f"stored-first {f.name}")
+            continue
+        gs = guards(cfg, fd_, runs[0]) + guards(cfg, Defs(ast.Module(body=[], type_ignores=[])), runs[0])
+        skipping = [t for t, pol_ in gs if not pol_ and any(w in t for w in ("exist", "has_index("))]
+        ctx.tri("3-missing", f, cfg.stmt[runs[0]], bool(skipping), not asks, "a stored result is returned before the function can run",
+                f"{f.name} never looks into the store before running the function: stored results are recomputed on resume", "the existence test does not control the run in a recognised way", key=f"stored-first {f.name}")
+    lfs = P.func("pipefunc.map._run._load_from_store")
+    its = [it for it in iterations(lfs.node) if "output_name" in norm(it["iter"])]
+    ctx.tri("3-missing", lfs, lfs.node, bool(its) and not any(isinstance(it["iter"], ast.Subscript) for it in its), any(isinstance(it["iter"], ast.Subscript) for it in its),
+            "every part of a tuple output is looked up", "only some parts of a tuple output are looked up", "iteration over the output names not recognised", key="tuple-all-exist")
 
-    # ------------------------------------------------------------ 4 no-delete
+
+def _conds_of(node: ast.AST, root: ast.AST) -> list[str]:
+    par = _parents(root)
+    out = []
+    x: ast.AST = node
+    while id(x) in par and x is not root:
+        child, x = x, par[id(x)]
+        if isinstance(x, ast.If):
+            out.append(nnf(x.test, neg=not (child in x.body)))
+    return out
+
+
+def rule_no_delete(ctx: Ctx) -> None:
+    P, cg, eff = ctx.prog, ctx.cg, ctx.effects
     dels = sorted(q for q in eff.sources(FS_DELETE) if P.functions[q].module.name.startswith("pipefunc.map") and "zarr" not in q)
-    ok = dels == ["pipefunc.map._run_info._cleanup_run_folder"]
-    ctx.add("4-no-delete", "pipefunc.map", "", ok, "the only deleting function in the map modules is _cleanup_run_folder" if ok else f"functions that delete from a run folder: {dels}", key="sources")
-    create = P.func("pipefunc.map._run_info.RunInfo.create")
+    extra = [q for q in dels if q != "pipefunc.map._run_info._cleanup_run_folder"]
+    ctx.add("4-no-delete", "pipefunc.map", "", not extra, "the only deleting function in the map modules is _cleanup_run_folder" if not extra else f"{extra} delete(s) from a run folder: completed results can disappear between runs", key="sources")
     sites = cg.call_sites_of("pipefunc.map._run_info._cleanup_run_folder")
-    ok = len(sites) == 1 and sites[0].caller.qualname == create.qualname
-    if ok:
-        par = _parents(create.node)
-        x = sites[0].node
-        under = False
-        while id(x) in par:
-            child, x = x, par[id(x)]
-            if isinstance(x, ast.If) and norm(x.test) == "cleanup" and any(child is s or any(child is d for d in ast.walk(s)) for s in x.body):
-                under = True
-        ok = under
-    ctx.add("4-no-delete", create, sites[0].node if sites else create.node, ok, "the folder is wiped only under `if cleanup`" if ok else "the run folder can be wiped although cleanup=False", key="under-cleanup")
+    for s_ in sites:
+        f = s_.caller
+        cfg = ctx.cfg(f)
+        n = cfg.node_containing(s_.node)
+        if n is None or "cleanup" not in f.param_names():
+            ctx.add("4-no-delete", f, s_.node, None, "UNDECIDED: call site not in a function with a `cleanup` parameter", key=f"under-cleanup {f.name}")
+            continue
+        ctrl = [(Defs(f).resolve(t_), truth) for t_, truth in cfg.controls(n)]
+        atoms = sorted({a_ for t_, _tr in ctrl for a_ in bool_atoms(t_)} - {"cleanup"})[:8]
+        reachable_without = False
+        for vals in itertools.product((True, False), repeat=len(atoms)):
+            env = dict(zip(atoms, vals)) | {"cleanup": False}
+            if all(bool_eval(t_, env) in (truth, None) for t_, truth in ctrl):
+                reachable_without = True
+                break
+        ctx.add("4-no-delete", f, s_.node, not reachable_without, "the folder is wiped only when cleanup is true" if not reachable_without else
+                "the run folder can be wiped although cleanup=False: the conditions that control the call do not all require `cleanup`", key=f"under-cleanup {f.name}")
 
-    # ------------------------------------------------------------ 5 propagate
-    he = P.func("pipefunc._utils.handle_error")
+
+def rule_propagate(ctx: Ctx) -> None:
+    he = ctx.prog.func("pipefunc._utils.handle_error")
     ok = EXIT not in CFG(he.node).reachable_from(ENTRY)
     ctx.add("5-propagate", he, he.node, ok, "handle_error always raises" if ok else "handle_error can return normally", key="noreturn")
+
+
+def check(ctx: Ctx) -> None:
+    for rule in (rule_atomic, rule_guarded, rule_missing, rule_no_delete, rule_propagate):
+        ctx.run(rule)
 
 
 U, RIF, R, D, A = "pipefunc/_utils.py", "pipefunc/map/_run_info.py", "pipefunc/map/_run.py", "pipefunc/map/_storage_array/_dict.py", "pipefunc/map/adaptive.py"
@@ -265,7 +377,7 @@ MUTANTS = [
     Mutant("resubmit-everything", R, "r = _maybe_parallel_map(func, args.process_index, args.missing, executor, status, progress)", "r = _maybe_parallel_map(func, args.process_index, [*args.existing, *args.missing], executor, status, progress)", ("C05.3-missing",)),
     Mutant("all-missing-instead-of-any", R, "        if any(mask_values):  # rerun if any of the outputs are missing\n", "        if all(mask_values):  # rerun if any of the outputs are missing\n", ("C05.3-missing",)),
     Mutant("single-recomputes", R, "    output, exists = _load_from_store(func.output_name, store, return_output=True)\n    if exists:\n        return output\n\n    # Otherwise, run the function\n", "", ("C05.3-missing",)),
-    Mutant("learner-recomputes", A, "    if all(arr.has_index(index) for arr in arrays):\n", "    if False and all(arr.has_index(index) for arr in arrays):\n", ("C05.3-missing",)),
+    Mutant("learner-recomputes", A, "    if all(arr.has_index(index) for arr in arrays):\n        if not return_output:\n            return None\n        return tuple(arr.get_from_index(index) for arr in arrays)\n", "", ("C05.3-missing",)),
     Mutant("rmtree-without-cleanup", RIF, "            if cleanup:\n                _cleanup_run_folder(run_folder)\n            else:\n", "            if cleanup or not RunInfo.path(run_folder).is_file():\n                _cleanup_run_folder(run_folder)\n            else:\n", ("C05.4-no-delete",)),
     Mutant("filearray-deletes-stale", "pipefunc/map/_storage_array/_file.py", "        key = self._normalize_key(key, for_dump=True)\n        if not any(isinstance(k, slice) for k in key):\n            dump(value, self._key_to_file(key))  # type: ignore[arg-type]\n",
            "        key = self._normalize_key(key, for_dump=True)\n        if not any(isinstance(k, slice) for k in key):\n            self._key_to_file(key).unlink(missing_ok=True)  # type: ignore[arg-type]\n            dump(value, self._key_to_file(key))  # type: ignore[arg-type]\n", ("C05.4-no-delete",)),
